@@ -11,6 +11,7 @@ from ural.utils import (
 from ural.infer_redirection import infer_redirection as resolve
 from ural.ensure_protocol import ensure_protocol
 from ural.tld import split_suffix
+from ural.patterns import CONTROL_CHARS_RE
 
 LANG_QUERY_KEYS = ("gl", "hl")
 
@@ -77,8 +78,11 @@ def get_fingerprinted_hostname(url, infer_redirection=True, strip_suffix=False):
     if isinstance(url, SplitResult):
         splitted = url
     else:
+        # NOTE: same cleaning as normalize_url
+        url = CONTROL_CHARS_RE.sub("", url).strip()
+
         try:
-            splitted = urlsplit(ensure_protocol(url.strip()))
+            splitted = urlsplit(ensure_protocol(url))
         except ValueError:
             return None
 
